@@ -120,3 +120,8 @@ Proof.
   unfold get_fingerprinted_hostname. cbn [bind]. destruct (urlsplit e _) as [sp|[]]; try reflexivity.
   destruct (hostname sp) as [[|c h]|]; reflexivity.
 Qed.
+
+(* C06: the fingerprint only depends on the lower-cased url: letter case is irrelevant everywhere *)
+Theorem fingerprint_case_irrelevant e t ss u1 u2 :
+  lower u1 = lower u2 -> fingerprint_url e t ss u1 = fingerprint_url e t ss u2.
+Proof. intros H. unfold fingerprint_url, fingerprint_split. rewrite H. reflexivity. Qed.
